@@ -67,6 +67,16 @@ def obligations(tier: str) -> list[Ob]:
             bounds={"components": 3},
         ),
         harness_ob(
+            "operation_warnings_accumulate", "C07_accounting.py", tier, funcs=["operation_warnings_accumulate"], timeout=200 if q else 600, cpus=1,
+            encoded=["openapi_python_client.parser.openapi:Endpoint.from_data", "openapi_python_client.parser.openapi:Endpoint._add_responses", "openapi_python_client.parser.bodies:body_from_data"],
+            bounds={"responses": "200 + {default} + {dangling 404}", "request media types": "none / json / json+xml / xml / json+png+form"},
+        ),
+        harness_ob(
+            "class_name_twins", "C07_accounting.py", tier, funcs=["class_name_twins_are_never_merged_silently"], timeout=200 if q else 600, cpus=1,
+            encoded=["openapi_python_client.parser.properties:build_schemas", "openapi_python_client.parser.properties.model_property:ModelProperty.build"],
+            bounds={"name pairs with one class name": 5, "definitions": "3 x 3 (equal by value, different, differing only in description)", "declaration order": "both"},
+        ),
+        harness_ob(
             "removal_listed", "C08_removal.py", tier, timeout=120 if q else 600, cpus=2,
             encoded=["openapi_python_client.parser.properties:_process_model_errors"],
             bounds={"dependency graph": "3 (4 thorough) nodes"},
